@@ -5,4 +5,7 @@ package main
 // Built without the runtime overlay (race pass, plain builds): no control over map iteration.
 func setMapIter(v uintptr) {}
 
+func setMapDev(at, val uintptr) {}
+func mapIterCount() uintptr   { return 0 }
+
 const haveSeam = false
